@@ -616,6 +616,23 @@ func TestCorr(t *testing.T) {
 				t.Fatalf("%s: %v", p, err)
 			}
 			newARunner(t, run, c.Powers).history(c.Ops)
+		case "usc-receipt":
+			var c struct {
+				Logs  string `json:"logs"`
+				NVals int    `json:"nvals"`
+			}
+			if err := json.Unmarshal(bz, &c); err != nil {
+				t.Fatalf("%s: %v", p, err)
+			}
+			uscScenario(t, run, c.Logs, c.NVals)
+		case "evm-gov-history":
+			var c struct {
+				History govHist `json:"history"`
+			}
+			if err := json.Unmarshal(bz, &c); err != nil {
+				t.Fatalf("%s: %v", p, err)
+			}
+			evmGovHistory(t, run, c.History)
 		case "skyway-history":
 			var c struct {
 				Ops []yhop `json:"ops"`
@@ -715,6 +732,18 @@ func TestCorr(t *testing.T) {
 	for i := 0; i < ns; i++ {
 		skyHistory(t, run, genSkyHistory(run))
 		run.Count("source", "skyway-history")
+	}
+
+	// ---- governance-configured state: compass deployment to a new chain, relay weights, retry ranking ----
+	for i := 0; i < run.N/5; i++ {
+		evmGovHistory(t, run, genGovHist(run))
+		run.Count("source", "evm-gov-history")
+	}
+
+	// ---- a user contract upload attested with a MATCHING transaction and receipt logs of every shape ----
+	for i, sh := range uscLogShapes {
+		uscScenario(t, run, sh, 3+(i+int(run.Seed))%3)
+		run.Count("source", "usc-receipt")
 	}
 
 	// ---- the version gate: real paloma BeginBlock over (binary version, completed upgrade) pairs ----
